@@ -165,7 +165,7 @@ func ParseContractFile(path string) (*ContractFile, error) {
 			}
 			switch kind {
 			case "requires", "ensures", "modifies", "invariant", "decreases", "local", "terminates", "inline",
-				"recovers", "nopanic", "fresh", "freshornil", "lemma", "assert", "assume", "pure", "split", "appends", "appendsAll", "copies", "mapStore", "mapDelete", "opaque", "panics", "trusted", "variant", "unroll", "calls_only", "lock", "ghost", "known", "uselemma", "exit", "partial":
+				"recovers", "nopanic", "fresh", "freshornil", "lemma", "assert", "assume", "pure", "split", "appends", "appendsAll", "copies", "mapStore", "mapDelete", "opaque", "panics", "trusted", "variant", "unroll", "calls_only", "lock", "ghost", "known", "uselemma", "exit", "partial", "onpanic":
 				cl.Kind = kind
 				cl.Text = rest
 				cur.Clauses = append(cur.Clauses, cl)
@@ -600,7 +600,7 @@ func (cf *ContractFile) Generate() (string, error) {
 			cl := &fc.Clauses[ci]
 			var stmt string
 			switch cl.Kind {
-			case "requires", "ensures", "assert", "assume":
+			case "requires", "ensures", "assert", "assume", "onpanic":
 				e, err := RewriteExpr(cl.Text)
 				if err != nil {
 					return "", fmt.Errorf("%s:%d: %v", fc.File, cl.Line, err)
@@ -608,6 +608,9 @@ func (cf *ContractFile) Generate() (string, error) {
 				k := cl.Kind
 				if k == "assume" {
 					k = "assert"
+				}
+				if k == "onpanic" {
+					k = "ensures"
 				}
 				stmt = fmt.Sprintf("__%s(%s)", k, e)
 			case "invariant":
